@@ -27,6 +27,8 @@ class Ctx:
         self.inputs = {}              # name -> description of fresh input (for counterexample decoding)
         self.nfresh = 0
         self.compact_k = None         # see Interp.to_iter
+        self.dedupe_rows = False      # witness-search mode only, see Interp.vec_items
+        self.bv_weights = False       # exact weights as binary-encoded integers (symbolic histories)
         self.opaque_weights = True    # weights as opaque integers (every outcome of the heuristic) or exact
 
     def event(self, g, kind, msg):
@@ -105,6 +107,95 @@ class Opaque:
         return "OPQ"
 
 
+BVW = 20    # width of binary-encoded machine integers (exact weights in history mode); saturates at 2^20-1
+
+
+class BVInt:
+    """binary-encoded unsigned integer (LSB first): used where values take many different sums (weights),
+    for which the value-indexed SInt representation explodes"""
+    __slots__ = ("b",)
+
+    def __init__(self, bits):
+        self.b = bits
+
+    def __repr__(self):
+        v = bv_value(self)
+        return "BV(%s)" % (v if v is not None else "sym")
+
+
+def bv_const(n):
+    n = min(n, (1 << BVW) - 1)
+    return BVInt([T if (n >> i) & 1 else F for i in range(BVW)])
+
+
+def bv_value(x):
+    if all(b in (T, F) for b in x.b):
+        return sum(1 << i for i, b in enumerate(x.b) if b == T)
+    return None
+
+
+def to_bv(x):
+    if isinstance(x, BVInt):
+        return x
+    if isinstance(x, int) and not isinstance(x, bool):
+        return bv_const(x)
+    if isinstance(x, SInt):
+        c = CTX.c
+        return BVInt([c.orl([g for k, g in x.c.items() if (min(k, (1 << BVW) - 1) >> i) & 1]) for i in range(BVW)])
+    raise Unsupported("cannot convert %r to a bit-vector integer" % (x,))
+
+
+def bv_ite(cnd, a, b):
+    c = CTX.c
+    a, b = to_bv(a), to_bv(b)
+    r = BVInt([c.ite(cnd, x, y) for x, y in zip(a.b, b.b)])
+    v = bv_value(r)
+    return r
+
+
+def bv_add_sat(a, b):
+    c = CTX.c
+    a, b = to_bv(a), to_bv(b)
+    out = []
+    carry = F
+    for x, y in zip(a.b, b.b):
+        s = c.xor(c.xor(x, y), carry)
+        carry = c.or2(c.and2(x, y), c.and2(carry, c.xor(x, y)))
+        out.append(s)
+    return BVInt([c.or2(carry, s) for s in out])      # saturate to all ones on overflow
+
+
+def bv_lt(a, b):
+    c = CTX.c
+    a, b = to_bv(a), to_bv(b)
+    lt = F
+    for x, y in zip(a.b, b.b):     # LSB to MSB: higher bits override
+        lt = c.ite(c.xor(x, y), c.and2(-x, y), lt)
+    return lt
+
+
+def bv_eq(a, b):
+    c = CTX.c
+    a, b = to_bv(a), to_bv(b)
+    return c.andl([c.iff(x, y) for x, y in zip(a.b, b.b)])
+
+
+def bv_sub_sat(a, b):
+    c = CTX.c
+    a, b = to_bv(a), to_bv(b)
+    out = []
+    borrow = F
+    for x, y in zip(a.b, b.b):
+        d = c.xor(c.xor(x, y), borrow)
+        borrow = c.or2(c.and2(-x, y), c.and2(borrow, -c.xor(x, y)))
+        out.append(d)
+    return BVInt([c.and2(-borrow, d) for d in out])    # saturate to zero on underflow
+
+
+def is_bv(x):
+    return isinstance(x, BVInt)
+
+
 OPQ = Opaque()
 
 
@@ -134,17 +225,26 @@ def cases_of(v):
         return {v: T}
     if isinstance(v, SInt):
         return v.c
+    if isinstance(v, BVInt):
+        n = bv_value(v)
+        if n is not None:
+            return {n: T}
+        raise Unsupported("symbolic bit-vector integer used as an index / element id")
     raise Unsupported("expected integer, got %r" % (v,))
 
 
 def is_int(v):
-    return (isinstance(v, int) and not isinstance(v, bool)) or isinstance(v, SInt)
+    return (isinstance(v, int) and not isinstance(v, bool)) or isinstance(v, (SInt, BVInt))
 
 
 def int_eq(a, b):
     c = CTX.c
+    if a is UNDEF or b is UNDEF:
+        return F          # garbage of a dead / panicking path (the read that produced it raised an event)
     if a is OPQ or b is OPQ:
         return CTX.fresh_bool("opq_eq")
+    if is_bv(a) or is_bv(b):
+        return bv_eq(a, b)
     if isinstance(a, int) and isinstance(b, int):
         return T if a == b else F
     ca, cb = cases_of(a), cases_of(b)
@@ -153,8 +253,12 @@ def int_eq(a, b):
 
 def int_lt(a, b):
     c = CTX.c
+    if a is UNDEF or b is UNDEF:
+        return F
     if a is OPQ or b is OPQ:
         return CTX.fresh_bool("opq_lt")
+    if is_bv(a) or is_bv(b):
+        return bv_lt(a, b)
     if isinstance(a, int) and isinstance(b, int):
         return T if a < b else F
     ca, cb = cases_of(a), cases_of(b)
@@ -162,8 +266,17 @@ def int_lt(a, b):
 
 
 def int_bin(op, a, b):
+    if a is UNDEF or b is UNDEF:
+        return UNDEF
     if a is OPQ or b is OPQ:
         return OPQ
+    if is_bv(a) or is_bv(b):
+        kind = getattr(op, "bvkind", None)
+        if kind == "add":
+            return bv_add_sat(a, b)
+        if kind == "subsat":
+            return bv_sub_sat(a, b)
+        raise Unsupported("bit-vector arithmetic other than saturating add/sub")
     if isinstance(a, int) and isinstance(b, int):
         return op(a, b)
     c = CTX.c
@@ -185,8 +298,14 @@ def int_ite(cnd, a, b):
         return b
     if a is OPQ or b is OPQ:
         return OPQ
+    if a is UNDEF:
+        return b
+    if b is UNDEF:
+        return a
     if isinstance(a, int) and isinstance(b, int) and a == b:
         return a
+    if is_bv(a) or is_bv(b):
+        return bv_ite(cnd, a, b)
     c = CTX.c
     ca, cb = cases_of(a), cases_of(b)
     out = {}
@@ -411,6 +530,8 @@ class VecA:
         return self.n
 
     def get(self, g, i):
+        if i is UNDEF:
+            return UNDEF
         CTX.event(CTX.c.and2(g, -int_lt(i, self.n)), "panic", "index out of bounds")
         if isinstance(i, int):
             if i >= self.cap:
@@ -426,6 +547,8 @@ class VecA:
     def set(self, g, i, v):
         if self.frozen:
             raise Unsupported("mutation of a merged (snapshot) Vec")
+        if i is UNDEF:
+            return
         CTX.event(CTX.c.and2(g, -int_lt(i, self.n)), "panic", "index out of bounds")
         for k, gk in cases_of(i).items():
             if k < self.cap:
